@@ -68,6 +68,12 @@ pub fn score_case<const N: usize, const W: usize, const QN: usize, const QW: usi
     }
     if hit.rmatches.len() == 0 && QW > 0 { assert!(!keep, "C09: a hit for a non-empty query has no highlighted span"); }
     assert!(hit.scores[ScoreType::Rating] == rating as isize, "C07: rating component is not the record's rating");
+    // wiring of score(): component i is the documented i-th priority (C08 decides the functions themselves)
+    assert!(hit.scores[ScoreType::Chars] == vh::score_chars_up(&hit) && hit.scores[ScoreType::Words] == vh::score_words_up(&hit)
+         && hit.scores[ScoreType::Tails] == vh::score_tails_down(&hit) && hit.scores[ScoreType::Trans] == vh::score_trans_down(&hit)
+         && hit.scores[ScoreType::Fin] == vh::score_fin_up(&hit) && hit.scores[ScoreType::Offset] == vh::score_offset_down(&hit)
+         && hit.scores[ScoreType::WordLen] == vh::score_word_len_down(&hit) && hit.scores[ScoreType::CharLen] == vh::score_char_len_down(&hit),
+            "C08: score() stores a component in the wrong priority slot");
     assert!(hit.scores[ScoreType::Chars] <= N as isize && hit.scores[ScoreType::Chars] >= -(N as isize), "C01: matched-characters score is not a small number (silent wrap-around)");
     assert!(vh::compare_hits(&hit, &hit) == std::cmp::Ordering::Equal, "C07: hit does not tie with itself");
     crate::witness!(W == 0 || QW == 0 || hit.rmatches.len() > 0, "a match is reachable");
